@@ -27,7 +27,17 @@ thread_local! {
     static COMMIT_T0: Cell<Option<u128>> = const { Cell::new(None) };
 }
 
+/// Set by single-threaded driver processes: steps may change the working directory there.
+pub static ALLOW_CHDIR: std::sync::atomic::AtomicBool = std::sync::atomic::AtomicBool::new(false);
+
 fn before_commit(ctx: &Ctx, s: &WriteSpec) {
+    if let Some(d) = s.chdir_mid {
+        if ALLOW_CHDIR.load(Ordering::SeqCst) {
+            let dir = ctx.scratch.join("cwd").join(format!("d{d}"));
+            let _ = std::fs::create_dir_all(&dir);
+            let _ = std::env::set_current_dir(&dir);
+        }
+    }
     if s.pause_ms > 0 {
         std::thread::sleep(std::time::Duration::from_millis(s.pause_ms as u64));
     }
